@@ -33,6 +33,7 @@ static size_t intern(uint64_t k) {
     return i;
 }
 static int key_fresh;                       /* keys=buf */
+static int sparse;                          /* obs=sparse: content is observed only by the `observe` op */
 #define NSCRATCH 64
 #define NARENA (1 << 15)
 static _Alignas(16) unsigned char scratch[NSCRATCH][32]; static size_t scratch_i;
@@ -92,6 +93,7 @@ static void conf_from_cmd(Cmd *c, CC_HashTableConf *conf) {
         conf->key_compare = cmp_bytes; conf->key_length = key_len_bytes; }
     else conf->hash = h_id;
     key_fresh = !strcmp(kv_str(c, "keys", "id"), "buf"); arena_i = 0;
+    sparse = !strcmp(kv_str(c, "obs", "full"), "sparse");
     conf->mem_alloc = conf_malloc; conf->mem_calloc = conf_calloc; conf->mem_free = conf_free;
 }
 
@@ -104,7 +106,7 @@ static CC_HashTableIter it; static int it_valid;
 static uint64_t universe[4096]; static size_t n_univ;
 static unsigned long long ord_log[4096]; static size_t ord_n; static int ord_on;
 static int load_bound_broken; /* C20: size > threshold right after a successful insertion */
-static void shim_reset(void) { ht = NULL; for (int i = 0; i < NSLOT; i++) darr[i] = NULL; it_valid = 0; n_univ = 0; }
+static void shim_reset(void) { sparse = 0; ht = NULL; for (int i = 0; i < NSLOT; i++) darr[i] = NULL; it_valid = 0; n_univ = 0; }
 static void univ_add(uint64_t k) {
     for (size_t i = 0; i < n_univ; i++) if (universe[i] == k) return;
     if (n_univ < 4096) universe[n_univ++] = k;
@@ -199,7 +201,7 @@ static void do_op(Cmd *c) {
         if (st != CC_OK) ht = NULL;
         o_stat(st); o(" ");
     } else if (is_op(c, "new_default")) {
-        ht = NULL; it_valid = 0; key_kind = K_STR; key_fresh = 0;
+        ht = NULL; it_valid = 0; key_kind = K_STR; key_fresh = 0; sparse = !strcmp(kv_str(c, "obs", "full"), "sparse");
         enum cc_stat st = cc_hashtable_new(&ht); if (st != CC_OK) ht = NULL; o_stat(st); o(" ");
     } else if (is_op(c, "arr_add") || is_op(c, "arr_destroy")) {
         if (slot < 1 || slot >= NSLOT || !darr[slot]) { o("st=- noslot "); }
@@ -249,6 +251,8 @@ static void do_op(Cmd *c) {
             o_stat(st); if (st == CC_OK && !noout) o(" out=%llu", VAL(out)); o(" "); }
     } else if (is_op(c, "destroy_table")) {
         cc_hashtable_destroy(ht); ht = NULL; it_valid = 0; o("st=- ");
+    } else if (is_op(c, "observe")) { o("st=- ");
     } else { o("st=- badop "); }
-    obs_abs(); o_sep(); phys();
+    if (!sparse || is_op(c, "observe")) obs_abs();
+    o_sep(); phys();
 }
